@@ -4,3 +4,5 @@ package engine
 
 func raceWrite() {}
 func raceRead()  {}
+
+func raceMeta() {}
